@@ -56,7 +56,7 @@ def closed_models(run):
             rejected.append("mem:" + os.path.basename(cfg)[len("DisruptionMem_Weak_"):-4])
         for cfg in sorted(glob.glob(os.path.join(run.specdir, "DisruptionCond_Weak_*.cfg"))):
             w = run.tlc("DisruptionCond", os.path.basename(cfg), workers=2, heap="2g", expect_violation=True)
-            if w.violated != "Inv_C07_ConsolidatableJustified":
+            if w.violated not in ("Inv_C07_ConsolidatableJustified", "Inv_C07_DecisionJustified"):
                 raise vlib.InfraError("spec mutation %s not rejected by TLC" % os.path.basename(cfg))
             rejected.append("cond:" + os.path.basename(cfg)[len("DisruptionCond_Weak_"):-4])
     run.notes.append("spec mutations rejected by TLC: " + ", ".join(rejected))
